@@ -28,6 +28,21 @@ def sbytes(s):
 
 def mkstr(bs):
     bs = tuple(bs)
+    if any(type(b) is tuple for b in bs):
+        # a byte buffer that carries opaque rendering pieces (symbolic numbers written into a Vec<u8>)
+        pieces = []
+        cur = []
+        for b in bs:
+            if type(b) is tuple:
+                if cur:
+                    pieces.append(mkstr(cur))
+                    cur = []
+                pieces.append(b)
+            else:
+                cur.append(b)
+        if cur:
+            pieces.append(mkstr(cur))
+        return assemble(pieces)
     if all(type(b) is int for b in bs):
         try:
             return bytes(bs).decode('utf-8')
@@ -259,6 +274,8 @@ def sink_value(s):
 
 def write_to(ctx, w, val):
     """append a rendered string value to writer `w` (Sink, Vec<u8>, String, Formatter, Cursor, stdout/stderr opaque)"""
+    while type(w) is Ref and type(w.load()) is Ref:
+        w = w.load()
     w0 = D(w)
     t = type(w0)
     if t is Agg and w0.ty in ('Sink', 'Formatter'):
@@ -277,9 +294,19 @@ def write_to(ctx, w, val):
         else:
             write_to(ctx, w0.fields[0], val)
         return
+    if t is Agg and w0.ty == 'OutFile':
+        ctx.event('write', w0.fields[0], val)
+        return
     if t is VecV and type(w) is Ref:
         if type(val) is FmtV:
-            raise Unsupported('write of non-concrete formatted text into Vec<u8>')
+            items = []
+            for p in val.pieces:
+                if type(p) is tuple:
+                    items.append(p)         # opaque piece kept as one buffer element
+                else:
+                    items.extend(sbytes(p))
+            w.store(VecV(w0.items + tuple(items)))
+            return
         w.store(VecV(w0.items + tuple(sbytes(val))))
         return
     if t in (str, SymStr, FmtV) and type(w) is Ref:
@@ -543,14 +570,14 @@ def install(prog):
         for b in bs:
             if is_sym(b) and not ctx.branch(z3.ULT(b, z3.BitVecVal(0x80, 8))):
                 raise Unsupported('symbolic non-ASCII byte in from_utf8')
-        return ok(SymStr(bs))
+        return ok(mkstr(bs))
 
     @B('String::from_utf8_lossy', 'std::string::String::from_utf8_lossy')
     def b_from_utf8_lossy(ctx, a, callee):
         bs = sbytes(a[0])
         if all(type(b) is int for b in bs):
             return bytes(bs).decode('utf-8', 'replace')
-        return SymStr(bs)
+        return mkstr(bs)
 
     def find_sub(ctx, hay, needle, start=0):
         """first index >= start where needle occurs (forks on symbolic bytes); -1 if none"""
